@@ -96,12 +96,15 @@ static void pm_object(const xv_req *r, xv_resp *o) {
 /* process state a library call may not touch, beyond locale / cwd / streams / descriptors: environment, umask, signal dispositions,
  * FP rounding mode, and the hidden cursors of libc (strtok position, rand sequence) that belong to the host program */
 #include <signal.h>
+#include <stdio_ext.h>
 #include <sys/stat.h>
 extern char **environ;
 static uint64_t pm_procstate(void) { uint64_t h = XV_FNV0; int k; char **e; mode_t m = umask(0); umask(m); h = xv_fnv(&m, sizeof m, h);
   for (e = environ; e && *e; e++) h = xv_fnv(*e, strlen(*e) + 1, h);
   for (k = 1; k < 32; k++) { struct sigaction sa; memset(&sa, 0, sizeof sa); if (!sigaction(k, NULL, &sa)) { h = xv_fnv(&sa.sa_handler, sizeof sa.sa_handler, h); h = xv_fnv(&sa.sa_flags, sizeof sa.sa_flags, h); } }
   k = fegetround(); h = xv_fnv(&k, sizeof k, h);
+  /* the buffering the HOST's standard streams are in (libc's FILE objects: the line-buffered flag) */
+  { FILE *fs[3]; int j; fs[0] = stdin; fs[1] = stdout; fs[2] = stderr; for (j = 0; j < 3; j++) { int lb = __flbf(fs[j]) != 0; h = xv_fnv(&lb, sizeof lb, h); } }     /* (the buffer SIZE is decided at first use, e.g. by a deprecation notice on stderr: not state the library may not touch) */
 #if defined(__x86_64__) || defined(__i386__)
   { unsigned int mx = 0; unsigned short cw = 0; __asm__ volatile("stmxcsr %0" : "=m"(mx)); __asm__ volatile("fnstcw %0" : "=m"(cw));
     mx &= 0xFFC0u;          /* control bits only (flush-to-zero, rounding, exception masks, denormals-are-zero), not the sticky status flags */
@@ -114,7 +117,7 @@ typedef struct { xrl_error *e; int code; char *msg; char *msgptr; } pm_kept;
 
 static const int pm_errnos[8] = { ENOMEM, 0, ERANGE, EDOM, EINVAL, ENOENT, EINTR, EAGAIN };
 
-static int fpflags;
+static int fpflags; static long deprec_bytes, legacy_calls;
 int main(int argc, char **argv) {
   int poison = 0, nfd0, nfd1, tok_ok = 1, rnd_ok = 1, rnd_expect = 0; uint64_t ps0, ps1; char *tok_expect = NULL; FILE *f; long n, k; char *sbuf = NULL; long slen = 0; xv_req *rq; xv_resp *rs; pm_kept *kept; int nkept = 0, changed = 0;
   uint64_t h0, h1; char loc0[512], loc1[512], cwd0[1024], cwd1[1024], p1[600], p2[600]; int fd1, fd2; struct stat st1, st2; long added = 0;
@@ -153,6 +156,13 @@ int main(int argc, char **argv) {
     else if (r->fn >= 2002 && r->fn <= 2004) pm_list(r, o, &e);
     else if (r->fn == 2005) pm_arrayinit(r, o, &e);
     else if (r->fn == 2006) pm_object(r, o);
+    else if (r->fn >= 2011 && r->fn <= 2015) {      /* the deprecated switches: nothing to compare; they may write their deprecation notice to stderr (counted apart), nothing else */
+      struct stat sb, sa; fflush(stderr); fstat(fd2, &sb);
+#pragma GCC diagnostic push
+#pragma GCC diagnostic ignored "-Wdeprecated-declarations"
+      switch (r->fn) { case 2011: SetHardExit(0); break; case 2012: SetExitStatus(0); break; case 2013: o->aux = 0 * GetExitStatus(); break; case 2014: SetErrorMessages(0); break; default: o->aux = 0 * GetErrorMessages(); break; }
+#pragma GCC diagnostic pop
+      fflush(stderr); fstat(fd2, &sa); deprec_bytes += (long)(sa.st_size - sb.st_size); legacy_calls++; }
     else if (r->fn == 2000) { Crystal_Struct *c = Crystal_GetCrystal("Si", NULL, NULL); if (c) { free(c->name); c->name = strdup(xe_s(r->s) ? xe_s(r->s) : "XvAdded"); o->aux = Crystal_AddCrystal(c, NULL, &e); added += o->aux; Crystal_Free(c); } }
     else o->status = 16;
     if (e) { o->status |= 1; o->code = (int)e->code; o->msg = xe_msgid(e->message);
@@ -171,8 +181,8 @@ int main(int argc, char **argv) {
   fclose(f);
   f = fopen(argv[6], "w"); if (!f) return 2;
   fprintf(f, "{\"h0\":\"%016llx\",\"h1\":\"%016llx\",\"hashed_bytes\":%zu,\"segments\":%d,\"locale_before\":\"%s\",\"locale_after\":\"%s\",\"cwd_same\":%d,"
-             "\"stdout_bytes\":%ld,\"stderr_bytes\":%ld,\"errors_kept\":%d,\"errors_changed\":%d,\"builtin_added\":%ld,\"requests\":%ld,\"caller_objects_modified\":%ld,\"answers_changed_on_same_object\":%ld,\"errno_poisoned\":%d,\"open_descriptors_before\":%d,\"open_descriptors_after\":%d,\"process_state_same\":%d,\"strtok_walk_intact\":%d,\"rand_sequence_intact\":%d,\"tls_bytes\":%zu}\n",
-          (unsigned long long)h0, (unsigned long long)h1, pm_nb, pm_nseg, loc0, loc1, !strcmp(cwd0, cwd1), (long)st1.st_size, (long)st2.st_size, nkept, changed, added, n, pm_objmod, pm_objdep, poison, nfd0, nfd1, ps0 == ps1, tok_ok, rnd_ok, pm_tls);
+             "\"stdout_bytes\":%ld,\"stderr_bytes\":%ld,\"errors_kept\":%d,\"errors_changed\":%d,\"builtin_added\":%ld,\"requests\":%ld,\"caller_objects_modified\":%ld,\"answers_changed_on_same_object\":%ld,\"errno_poisoned\":%d,\"open_descriptors_before\":%d,\"open_descriptors_after\":%d,\"process_state_same\":%d,\"strtok_walk_intact\":%d,\"rand_sequence_intact\":%d,\"tls_bytes\":%zu,\"deprecation_notice_bytes\":%ld,\"deprecated_calls\":%ld}\n",
+          (unsigned long long)h0, (unsigned long long)h1, pm_nb, pm_nseg, loc0, loc1, !strcmp(cwd0, cwd1), (long)st1.st_size, (long)st2.st_size, nkept, changed, added, n, pm_objmod, pm_objdep, poison, nfd0, nfd1, ps0 == ps1, tok_ok, rnd_ok, pm_tls, deprec_bytes, legacy_calls);
   fclose(f);
   unlink(p1); unlink(p2);
   { char t[700]; snprintf(t, sizeof t, "%s.good.dat", argv[6]); unlink(t); snprintf(t, sizeof t, "%s.bad.dat", argv[6]); unlink(t); snprintf(t, sizeof t, "%s.dup.dat", argv[6]); unlink(t);
